@@ -84,7 +84,7 @@ struct Eval<'a> {
 #[derive(Clone, Copy, Debug)]
 enum Def {
     Const,
-    Free(usize),
+    Free(usize, usize),
     /// gate: (in0, in1, output parity)
     Gate(usize, usize, usize),
 }
@@ -114,13 +114,13 @@ impl<'a> Eval<'a> {
         def.insert(0, Def::Const);
         let mut k = 0;
         for &i in &g.inputs {
-            if def.insert(i >> 1, Def::Free(k)).is_some() {
+            if def.insert(i >> 1, Def::Free(k, i & 1)).is_some() {
                 return None;
             }
             k += 1;
         }
         for &(s, _, _) in &g.latches {
-            if def.insert(s >> 1, Def::Free(k)).is_some() {
+            if def.insert(s >> 1, Def::Free(k, s & 1)).is_some() {
                 return None;
             }
             k += 1;
@@ -144,7 +144,9 @@ impl<'a> Eval<'a> {
         let r = match self.def.get(&v).copied() {
             None => Err([Problem::Undefined].into_iter().collect()),
             Some(Def::Const) => Ok(0),
-            Some(Def::Free(k)) => Ok(var_table(k, self.nfree)),
+            // the free variable is the DEFINING literal: an odd defining literal makes the variable's
+            // positive literal its negation
+            Some(Def::Free(k, parity)) => Ok(if parity == 1 { !var_table(k, self.nfree) & mask(self.nfree) } else { var_table(k, self.nfree) }),
             Some(Def::Gate(a, b, parity)) => {
                 self.visiting.insert(v);
                 let ra = self.lit(a);
@@ -389,6 +391,35 @@ pub fn judge<L: LitName>(g: &G, cfg: Cfg) -> (Option<(String, String)>, &'static
 
 // ------------------------------------------------------------------ enumeration
 
+/// The same graph with some variables DEFINED through their odd literal: the defining literal of the
+/// selected gates (bit k of `which` = k-th gate in list order) and, with `inputs_too`, of the inputs
+/// is negated, and so is every reference to those variables - functions are unchanged.
+fn flip_definitions(g: &G, which: u32, inputs_too: bool) -> G {
+    let mut flipped: BTreeSet<usize> = BTreeSet::new();
+    for (k, gate) in g.gates.iter().enumerate() {
+        if which >> k & 1 == 1 {
+            flipped.insert(gate.0 >> 1);
+        }
+    }
+    if inputs_too {
+        for &i in &g.inputs {
+            flipped.insert(i >> 1);
+        }
+    }
+    let f = |c: usize| if flipped.contains(&(c >> 1)) { c ^ 1 } else { c };
+    G {
+        max_var: g.max_var,
+        inputs: g.inputs.iter().map(|&c| f(c)).collect(),
+        latches: g.latches.iter().map(|&(s, n, i)| (s, f(n), i)).collect(),
+        gates: g.gates.iter().map(|&(o, a, b)| (f(o), f(a), f(b))).collect(),
+        outputs: g.outputs.iter().map(|&c| f(c)).collect(),
+        bad: g.bad.iter().map(|&c| f(c)).collect(),
+        constraints: g.constraints.iter().map(|&c| f(c)).collect(),
+        fairness: g.fairness.iter().map(|&c| f(c)).collect(),
+        justice: g.justice.iter().map(|j| j.iter().map(|&c| f(c)).collect()).collect(),
+    }
+}
+
 /// Apply a variable renumbering (perm[v] = new variable index, v >= 1) to a graph.
 fn renumber_vars(g: &G, perm: &dyn Fn(usize) -> usize) -> G {
     let f = |c: usize| if c < 2 { c } else { 2 * perm(c >> 1) + (c & 1) };
@@ -610,6 +641,22 @@ fn check_assignment<L: LitName>(sc: &Scope, tier: Tier, idx: usize, acc: &mut Re
                         continue;
                     }
                     check_graph::<L>(&h, acc, "scope");
+                }
+            }
+            // (e) variables defined through their odd literal (gate outputs, and inputs): every
+            // non-empty subset of the gates, with and without odd input literals
+            if mode == 0 && sc.g >= 1 && sc.g <= 2 {
+                let all = (1u32 << sc.g) - 1;
+                let variants: Vec<(u32, bool)> = if tier == Tier::Thorough {
+                    (1..=all).flat_map(|w| [(w, false), (w, true)]).collect()
+                } else {
+                    vec![(all, false), (1, false), (all, true)]
+                };
+                for (which, inputs_too) in variants {
+                    if inputs_too && sc.i == 0 {
+                        continue;
+                    }
+                    check_graph::<L>(&flip_definitions(&g, which, inputs_too), acc, "odd-definitions");
                 }
             }
             // (c) every ordered pair of root literals (identity numbering and gate order): the
@@ -894,4 +941,4 @@ pub fn replay(v: &Value) -> (bool, String) {
     (verdict.is_some(), text)
 }
 
-pub const RULE: &str = "every and-inverter graph of the scope (inputs + latches <= 2, gates <= 2 quick / 3 thorough; each gate input over every literal: constants, both polarities of every input, latch and gate incl. itself and later gates, and an undefined variable; roots: every literal as output alone, as the only entry of exactly one of latch next-state / bad / constraint / fairness / justice, and in all of them at once; gate list orders; variable numberings incl. reversal with gaps and all permutations for small scopes; redefinition variants; deep chains) x all 8 (trim, structural_hash, const_fold) combinations; truth tables over all assignments of the <= 2 free variables; non-trivial = well-formed graphs with at least one gate that were renumbered successfully";
+pub const RULE: &str = "every and-inverter graph of the scope (inputs + latches <= 2, gates <= 2 quick / 3 thorough; each gate input over every literal: constants, both polarities of every input, latch and gate incl. itself and later gates, and an undefined variable; variables also defined through their odd literal (every subset of the gates, optionally the inputs); roots: every literal as output alone, as the only entry of exactly one of latch next-state / bad / constraint / fairness / justice, and in all of them at once; gate list orders; variable numberings incl. reversal with gaps and all permutations for small scopes; redefinition variants; deep chains) x all 8 (trim, structural_hash, const_fold) combinations; truth tables over all assignments of the <= 2 free variables; non-trivial = well-formed graphs with at least one gate that were renumbered successfully";
